@@ -529,8 +529,14 @@ class Textgrid:
         reportingMode: Literal["silence", "warning", "error"] = "warning",
     ) -> None:
         tierIndex = self.tierNames.index(name)
+        originalTierDict = self._tierDict.copy()
         self.removeTier(name)
-        self.addTier(newTier, tierIndex, reportingMode)
+        try:
+            self.addTier(newTier, tierIndex, reportingMode)
+        except Exception:
+            # Put the old tier back; a failed replace must not lose it
+            self._tierDict = originalTierDict
+            raise
 
     def validate(
         self, reportingMode: Literal["silence", "warning", "error"] = "warning"
